@@ -257,8 +257,45 @@ def text_tok(rng, b, strict=None):
     return tag + ":" + b.hex()
 
 
+def in_base(n, base):
+    digits = "0123456789abcdefghijklmnopqrstuvwxyz"
+    if n == 0:
+        return "0"
+    out = ""
+    m = abs(n)
+    while m:
+        out = digits[m % base] + out
+        m //= base
+    return ("-" if n < 0 else "") + out
+
+
+# integers next to the limits of the bit sizes a parser may be asked for
+WIDTH_EDGES = [w for b in (7, 8, 15, 16, 31, 32, 63, 64) for w in (2 ** b - 1, 2 ** b, -(2 ** b), -(2 ** b) - 1)]
+
+
 def gen_number_text(rng):
-    r = rng.below(10)
+    r = rng.below(14)
+    if r >= 10:
+        # texts whose reading depends on the base: base prefixes with digits of that base, leading zeros, digit separators,
+        # numerals written in bases 2..36, values at the limits of the integer widths
+        k = rng.below(6)
+        n = rng.choice(WIDTH_EDGES) if rng.chance(1, 3) else (rng.below(1 << (1 + rng.below(40))) * (1 if rng.chance(3, 4) else -1))
+        if k == 0:
+            pre, base = rng.choice([("0x", 16), ("0X", 16), ("0b", 2), ("0B", 2), ("0o", 8), ("0O", 8), ("0", 8)])
+            t = ("-" if n < 0 else rng.choice(["", "", "+"])) + pre + in_base(abs(n), base)
+        elif k == 1:
+            t = ("-" if n < 0 else "") + "0" * (1 + rng.below(3)) + str(abs(n))
+        elif k == 2:
+            body = in_base(abs(n), rng.choice([2, 8, 10, 16]))
+            cut = 1 + rng.below(max(1, len(body) - 1))
+            t = rng.choice(["", "0x", "0b", "0o", "0"]) + body[:cut] + "_" + body[cut:]
+        elif k == 3:
+            t = in_base(n, 2 + rng.below(35))
+        elif k == 4:
+            t = in_base(n, rng.choice([2, 8, 16, 36])).upper()
+        else:
+            t = str(n)
+        return t.encode()
     if r < 3:
         t = str(rng.choice(INT_POOL) if rng.chance(1, 2) else rng.next() - 2 ** 63)
     elif r < 6:
@@ -340,6 +377,62 @@ def gen_arg(rng, fname, kind, ctx):
             b = rng.choice([b"", b"ab", "é".encode()])
         return text_tok(rng, b)
     return "n"
+
+
+def optional_boundaries(kind, default):
+    """boundary values of one optional parameter: zero, negative, the extremes, small values, and the value the wrapper uses
+    when the argument is absent (with its neighbours) - a wrapper must hand each of them to the Go function as it is"""
+    if kind == "bool":
+        return ["T", "F"]
+    if kind == "int":
+        vals = [0, 1, -1, 2, 3, 7, 8, 10, 16, 32, 36, 37, 63, 64, 65, 2 ** 31, 2 ** 63 - 1, -(2 ** 63)]
+        try:
+            d = int(default)
+            vals += [d, d - 1, d + 1, -d]
+        except (TypeError, ValueError):
+            pass
+        seen, out = set(), []
+        for v in vals:
+            if v not in seen and -(2 ** 63) <= v < 2 ** 63:
+                seen.add(v)
+                out.append("i:%d" % v)
+        return out
+    if kind in ("float", "num", "fonly"):
+        return ["f:" + bits_of(x) for x in (0.0, -0.0, 1.0, -1.0, float("inf"), float("-inf"), 5e-324, 1.7976931348623157e308)] + ["f:nan", "i:0", "i:-1"]
+    return []
+
+
+def gen_optional_sweep(rng, specs, defaults, k):
+    """every function with optional parameters, at every arity it accepts, with every boundary value of each optional parameter
+    (the other arguments drawn as usual, k times): a wrapper that treats a legitimate explicit value as 'absent', clamps it, or
+    shifts the optional arguments by one shows here"""
+    cases = []
+    for name, callee, kinds, nopt, variadic in specs:
+        if not nopt or variadic:
+            continue
+        nreq = len(kinds) - nopt
+        dflt = defaults.get(name, [])
+        for n in range(nreq, len(kinds) + 1):
+            ks = kinds[:n]
+            if n == nreq:
+                for _ in range(k):
+                    ctx = {}
+                    cases.append((name, [gen_arg(rng, name, kk, ctx) for kk in ks]))
+                continue
+            for oi in range(nreq, n):
+                d = dflt[oi - nreq] if oi - nreq < len(dflt) else None
+                for bv in optional_boundaries(kinds[oi], d):
+                    for _ in range(k):
+                        ctx = {}
+                        args = [gen_arg(rng, name, kk, ctx) for kk in ks]
+                        args[oi] = bv
+                        # the other optional arguments: half of the time at a boundary of their own
+                        for oj in range(nreq, n):
+                            if oj != oi and rng.chance(1, 2):
+                                dj = dflt[oj - nreq] if oj - nreq < len(dflt) else None
+                                args[oj] = rng.choice(optional_boundaries(kinds[oj], dj) or [args[oj]])
+                        cases.append((name, args))
+    return cases
 
 
 def gen_wrapper_cases(rng, specs, per_fn):
@@ -764,9 +857,11 @@ def _body(res, quick, obs, model, records, proved, repo):
     known = {k["id"]: k for k in load_known()}
     rc, o, e = C.run([obs, "names"])
     specs = []
+    spec_defaults = {}
     for line in o.splitlines():
         f = line.split("\t")
         specs.append((f[0], f[1], f[2].split(","), int(f[3]), f[4] == "true"))
+        spec_defaults[f[0]] = [d for d in f[5].split(",") if d] if len(f) > 5 else []
     spec_names = {s[0] for s in specs}
     regular = {r["name"] for r in records if r["regular"]}
     irregular = sorted(r["name"] for r in records if not r["regular"])
@@ -795,7 +890,8 @@ def _body(res, quick, obs, model, records, proved, repo):
             f = line.rstrip("\n").split("\t")
             if f[0] in corpus and len(f) >= 2:
                 corpus[f[0]].append(f[1:])
-    wcases = [(f[0], f[1].split(" ") if len(f) > 1 and f[1] else []) for f in corpus["W"]] + gen_wrapper_cases(rng, specs, per_fn)
+    wcases = [(f[0], f[1].split(" ") if len(f) > 1 and f[1] else []) for f in corpus["W"]] + gen_wrapper_cases(rng, specs, per_fn) \
+        + gen_optional_sweep(rng, specs, spec_defaults, 24 if quick else 200)
     for fname, args in wcases:
         for route in ("api", "script"):
             add("W", [fname, route, " ".join(args)], {"fname": fname, "route": route, "args": args})
@@ -1107,7 +1203,10 @@ def _body(res, quick, obs, model, records, proved, repo):
         "%d wrapped functions (modules strings, strconv, math, bytes, base64, filepath, regexp; methods of string, byte_slice, "
         "regexp object) x %d seeded argument tuples each (strings from a pool of Unicode / invalid UTF-8 / path / number / pattern "
         "texts and random bytes, carried as string, byte_slice or buffer; second arguments often substrings of the first; boundary "
-        "ints and floats, random float bit patterns; 12%% one argument of a wrong type, 6%% wrong arity), each through the object "
+        "ints and floats, random float bit patterns; 12%% one argument of a wrong type, 6%% wrong arity; every function with optional parameters "
+        "also at every arity it accepts with every boundary value of each optional parameter - 0, +-1, small values, the extremes, the "
+        "value the specification uses when the argument is absent and its neighbours -, number texts with base prefixes, leading "
+        "zeros, digit separators, numerals in bases 2..36 and values at the limits of the integer widths), each through the object "
         "API (GetAttr(name).(*object.Builtin).Call) and through a script (try-wrapped call on globals), beside a direct call of the "
         "Go function on the converted arguments; 5 byte codecs x %d values round trip + %d malformed inputs each, JSON: %d nested "
         "values (round trip, json.marshal vs codec) and %d texts (json.unmarshal vs codec, strict referee), both routes. Oracle "
